@@ -5,6 +5,7 @@ import (
 	"encoding/hex"
 	"encoding/json"
 	"fmt"
+	"reflect"
 	"sort"
 	"strconv"
 	"strings"
@@ -103,6 +104,7 @@ type OpResult struct {
 	Invoke   int
 	Return   int
 	CtxArgs  []string // arguments received by $xctx
+	Handlers []string // what the handlers and the body of $xboth saw, in call order
 	UndefIn  int      // times the body of $xundef was entered
 	T0, T1   int64    // simulated clock around the op (engine B)
 	Steps    int
@@ -191,7 +193,8 @@ func tripleKey(text string, doc *docInst, vars map[string]*docInst, exts bool) s
 	}
 	sort.Strings(names)
 	for _, n := range names {
-		b.WriteString(n + "=" + vars[n].spec.JSON + "#" + vars[n].spec.Member + ";")
+		vs := vars[n].spec
+		b.WriteString(n + "=" + vs.JSON + strings.Join(vs.Alias, ">") + "#" + vs.Member + "#" + strings.Join(vs.Subslice, ",") + ";")
 	}
 	if exts {
 		b.WriteString("\x00x")
@@ -222,12 +225,35 @@ func (r *runner) harnessExts() map[string]jsonata.Extension {
 			},
 			UndefinedHandler: jtypes.ArgUndefined(0),
 		},
+		// an extension with BOTH handlers; each of them records what it sees
+		"xboth": {
+			Func: func(a, b interface{}) string {
+				r.handlerLog(fmt.Sprintf("F:%v", a != nil))
+				s, _ := a.(string)
+				return "both:" + s
+			},
+			UndefinedHandler: func(argv []reflect.Value) bool {
+				r.handlerLog(fmt.Sprintf("U:%d", len(argv)))
+				return len(argv) > 0 && !argv[0].IsValid()
+			},
+			EvalContextHandler: func(argv []reflect.Value) bool {
+				r.handlerLog(fmt.Sprintf("C:%d:%v", len(argv), len(argv) == 1))
+				return len(argv) == 1
+			},
+		},
 		"tick": {Func: func(ms float64) float64 {
 			if t := engine.Current(); t != nil && ms > 0 {
 				r.sleepFor(t, int64(ms))
 			}
 			return ms
 		}},
+	}
+}
+
+func (r *runner) handlerLog(s string) {
+	if t := engine.Current(); t != nil {
+		res := &r.results[t.ID][t.Op()]
+		res.Handlers = append(res.Handlers, s)
 	}
 }
 
@@ -722,7 +748,12 @@ func (r *runner) postChecks(res *Result) {
 	concurrent := len(r.spec.Tasks) > 1
 	seenPos := map[string]map[string]bool{}
 	nontriv := map[string]bool{}
+	outs := map[string]bool{}
 	defer func() {
+		for k := range outs {
+			res.Outs = append(res.Outs, k)
+		}
+		sort.Strings(res.Outs)
 		for k := range nontriv {
 			res.NontrivKeys = append(res.NontrivKeys, k)
 		}
@@ -778,6 +809,17 @@ func (r *runner) postChecks(res *Result) {
 				seenPos[hk] = map[string]bool{}
 			}
 			seenPos[hk][fmt.Sprintf("%d.%d", ti, oi)] = true
+			if or.Fired == "" && r.spec.Kind == "history" {
+				// (triple, outcome) pairs for the cross-process comparison
+				// done by the driver: the same call must give the same
+				// outcome in every process, whatever ran there before
+				oh := sha256.Sum256([]byte(or.Outcome))
+				outs[hk+":"+hex.EncodeToString(oh[:6])] = true
+				if res.OutTexts == nil {
+					res.OutTexts = map[string]string{}
+				}
+				res.OutTexts[hk] = clip(ei.text, 200) + " on " + op.Doc + " (" + op.Kind + ") -> " + clip(or.Outcome, 120)
+			}
 
 			r.extChecks(res, ti, oi, op, or, ei, key, ref)
 			if or.Fired == "abort" {
@@ -871,6 +913,31 @@ func (r *runner) extChecks(res *Result, ti, oi int, op *Op, or *OpResult, ei *ex
 	if or.UndefIn > 0 && strings.Contains(ei.text, "$xundef(nosuch)") && !strings.Contains(ei.text, "$xundef(name)") {
 		r.report(res, Violation{Property: "C20", Class: "ext-handler-order", Oracle: "undefined-handler", Key: key, Task: ti, Op: oi,
 			Detail: "UndefinedHandler returned true but the function body was entered"})
+	}
+	// Extension doc: EvalContextHandler true => the context is inserted as
+	// the first argument; UndefinedHandler is called "with the same
+	// arguments" as Func. So after a context handler that returned true for n
+	// arguments, the undefined handler must see n+1 arguments, and when it
+	// then returns false the body must be entered.
+	for i, h := range or.Handlers {
+		if strings.HasPrefix(h, "U:") && (i == 0 || !strings.HasPrefix(or.Handlers[i-1], "C:")) {
+			r.report(res, Violation{Property: "C20", Class: "ext-handler-order", Oracle: "handler-arguments", Key: key, Task: ti, Op: oi,
+				Detail: fmt.Sprintf("UndefinedHandler ran before EvalContextHandler had a chance to insert the context (handler log %v)", or.Handlers)})
+			break
+		}
+	}
+	for i := 0; i+1 < len(or.Handlers); i++ {
+		var n int
+		var ret bool
+		if _, err := fmt.Sscanf(or.Handlers[i], "C:%d:%t", &n, &ret); err != nil || !ret {
+			continue
+		}
+		var m int
+		if _, err := fmt.Sscanf(or.Handlers[i+1], "U:%d", &m); err == nil && m != n+1 {
+			r.report(res, Violation{Property: "C20", Class: "ext-handler-order", Oracle: "handler-arguments", Key: key, Task: ti, Op: oi,
+				Detail: fmt.Sprintf("EvalContextHandler returned true for %d argument(s) but UndefinedHandler then saw %d argument(s) (handler log %v)", n, m, or.Handlers)})
+			break
+		}
 	}
 	if len(or.CtxArgs) > 0 && op.Kind == "eval" && len(ei.vars) == 0 {
 		// every context argument must be a string of the task's own document
